@@ -17,7 +17,8 @@ import time
 import common
 from common import Infra, read_ndjson, run_tlc, write_ndjson
 
-CAP = 300
+CAP = 300        # = Cap of QueryGrammar.tla
+VOLCAP = 2000    # = VolCap
 PKG = "internal/query"
 
 # (vk, alphabet, max symbols, headers)
@@ -29,11 +30,12 @@ VALUES_QUICK = [
     ("sort", "raw", 3, "base"), ("limit", "raw", 3, "base"), ("group", "raw", 3, "base"),
 ]
 VALUES_THOROUGH = [
-    ("num", "raw", 4, "keys"), ("num", "parts", 4, "keys"), ("num", "parts", 3, "all"),
-    ("time", "raw", 3, "keys"), ("time", "parts", 4, "keys"), ("time", "parts", 2, "all"),
-    ("host", "raw", 4, "keys"), ("host", "masks", 3, "all"),
-    ("proto", "raw", 4, "base"), ("proto", "raw", 2, "all"), ("data", "raw", 3, "keys"), ("data", "raw", 2, "all"),
-    ("tag", "raw", 3, "all"), ("sort", "raw", 4, "base"), ("limit", "raw", 4, "base"), ("group", "raw", 4, "base"),
+    ("num", "raw", 4, "base"), ("num", "parts", 4, "base"), ("num", "parts", 3, "keys"), ("num", "parts", 2, "all"),
+    ("time", "raw", 3, "keys"), ("time", "parts", 4, "base"), ("time", "parts", 2, "all"),
+    ("host", "raw", 4, "base"), ("host", "masks", 3, "all"),
+    ("proto", "raw", 4, "base"), ("proto", "raw", 2, "all"), ("data", "raw", 3, "base"), ("data", "raw", 2, "all"),
+    ("tag", "raw", 3, "keys"), ("tag", "raw", 2, "all"),
+    ("sort", "raw", 4, "base"), ("limit", "raw", 4, "base"), ("group", "raw", 4, "base"),
 ]
 
 
@@ -219,7 +221,7 @@ def run(ctx):
     if len(inputs) < 1000:
         raise Infra("generator produced only %d inputs" % len(inputs))
     # inputs beyond the size bound cost a process each: keep a seeded sample of them
-    big = [r for r in inputs if r["syn"] and r["size"] > CAP]
+    big = [r for r in inputs if r["syn"] and (r["size"] > CAP or r["vol"] > VOLCAP)]
     big_max = 60 if quick else 400
     dropped_big = 0
     if len(big) > big_max:
@@ -241,7 +243,7 @@ def run(ctx):
     shard_files = []
     for s in range(nshards):
         inp = os.path.join(wd, "in_%d.ndjson" % s)
-        write_ndjson(inp, [{k: r[k] for k in ("id", "mode", "vk", "toks", "syn", "size", "wf")} for r in order[s::nshards]])
+        write_ndjson(inp, [{k: r[k] for k in ("id", "mode", "vk", "toks", "syn", "size", "vol", "wf")} for r in order[s::nshards]])
         shard_files.append((inp, os.path.join(wd, "out_%d.ndjson" % s)))
     deadline = t_start + (105 if quick else 800)
     flood = 3 if quick else 6
@@ -256,12 +258,22 @@ def run(ctx):
     degraded = sum(1 for s in stats if s[2])
     truncated = sum(1 for s in stats if s[3])
 
-    # a time-out under full budget is re-run alone (the machine may have been busy): both must time out
+    # Time-outs are re-run alone, up to two more times, under the full budget (other shards are gone by
+    # then): only a case that never answers within the budget stays a time-out.  Candidates: time-outs under
+    # the full budget first, then those that ran under a budget reduced by a flood of another defect
+    # (two per place of the hang, most frequent place first), so that one defect cannot hide another.
+    def beyond(r):
+        g = by_id[r["id"]]
+        return (not r["mut"]) and g["syn"] and (g["size"] > CAP or g["vol"] > VOLCAP)
     cand = [r for r in rows if r["verdict"] == "timeout" and r["budget"] >= 2000]
+    reduced = [r for r in rows if r["verdict"] == "timeout" and r["budget"] < 2000 and not beyond(r)]
+    freq = collections.Counter(r["at"] for r in reduced)
     per_at = collections.Counter()
     confirm = []
-    for r in sorted(cand, key=lambda r: (len(r["text64"]), r["id"], r["case"])):
-        if per_at[r["at"]] < 2 and len(confirm) < (4 if quick else 16):
+    order_c = sorted(cand, key=lambda r: (len(r["text64"]), r["id"], r["case"])) + \
+        sorted(reduced, key=lambda r: (-freq[r["at"]], r["at"], len(r["text64"]), r["id"], r["case"]))
+    for r in order_c:
+        if per_at[r["at"]] < 2 and len(confirm) < (8 if quick else 20):
             per_at[r["at"]] += 1
             confirm.append(r)
     confirmed = 0
@@ -270,25 +282,35 @@ def run(ctx):
         outp = os.path.join(wd, "confirm_out_%d_%d.ndjson" % (r["id"], r["case"]))
         write_ndjson(inp, [{"id": r["id"], "case": r["case"], "text64": r["text64"], "toks": [], "mode": "replay",
                             "vk": "", "syn": False, "size": 0, "wf": "unknown"}])
-        _run_shard(ctx, binpath, inp, outp, 2000, 99, time.time() + 60)
-        again = read_ndjson(outp) if os.path.exists(outp) else []
-        if not again:
-            raise Infra("confirmation run wrote nothing")
-        r["attempts"] = 2
-        if again[0]["verdict"] == "timeout":
+        again = None
+        for attempt in (2, 3):      # up to two more runs; any answer within the budget counts
+            if os.path.exists(outp):
+                os.remove(outp)
+            _run_shard(ctx, binpath, inp, outp, 2000, 99, time.time() + 60)
+            got = read_ndjson(outp) if os.path.exists(outp) else []
+            if not got:
+                raise Infra("confirmation run wrote nothing")
+            again = got[0]
+            r["attempts"] = attempt
+            if again["verdict"] != "timeout":
+                break
+        if again["verdict"] == "timeout":
             confirmed += 1
-        else:                       # it did return when run alone: take the second observation
-            for k in ("verdict", "ms", "same", "nconds", "at", "msg"):
-                r[k] = again[0][k]
+            r["budget"] = again["budget"]
+        else:                       # it did return when run alone: take that observation
+            for k in ("verdict", "ms", "cpu", "same", "nconds", "at", "msg", "budget"):
+                r[k] = again[k]
     for r in cand:
-        if r["verdict"] == "timeout" and r.get("attempts") != 2:
+        if r["verdict"] == "timeout" and not r.get("attempts"):
             r["budget"] = 1999      # not re-run (flood): inconclusive, never a verdict
 
     _dbg("confirmation done (%d of %d)" % (confirmed, len(confirm)), t_start)
     # ------------------------------------------------------------------ (C) TLC judges the recorded rows
-    anomalous = [r for r in rows if r["verdict"] not in ("ok", "err") or not r["same"]]
-    normal = [r for r in rows if r["verdict"] in ("ok", "err") and r["same"]]
-    nmax = 14000 if quick else 120000
+    def odd(r):
+        return r["verdict"] not in ("ok", "err") or not r["same"] or r.get("cpu", 0) >= 500
+    anomalous = [r for r in rows if odd(r)]
+    normal = [r for r in rows if not odd(r)]
+    nmax = 50000 if quick else 150000
     if len(normal) > nmax:
         normal = rnd.sample(normal, nmax)
     judged = anomalous + normal
@@ -296,7 +318,7 @@ def run(ctx):
     for r in judged:
         g = by_id[r["id"]]
         trace.append({"id": r["id"], "case": r["case"], "canon": bool(r["canon"]), "budget": r["budget"],
-                      "verdict": r["verdict"], "same": bool(r["same"]), "nconds": r["nconds"], "ms": r["ms"],
+                      "verdict": r["verdict"], "same": bool(r["same"]), "nconds": r["nconds"], "ms": r["ms"], "cpu": r.get("cpu", 0),
                       "lexok": bool(r["lexok"]), "ltoks": r["ltoks"] or [],
                       "gflat": g["flat"] if r["canon"] else [], "gwf": g["wf"]})
     tpath = os.path.join(wd, "parser_trace.ndjson")
@@ -314,8 +336,12 @@ def run(ctx):
     infos = collections.Counter(p["what"] for p in tres.prints if p.get("cls") == "info")
     ncs = [p for p in tres.prints if p.get("cls") == "nc"]
 
+    slow_obs = sorted(([row_of[(p["id"], p["case"])]["cpu"], p["size"], p["vol"],
+                        row_of[(p["id"], p["case"])]["show"][:70]]
+                       for p in tres.prints if p.get("cls") == "info" and p["what"] == "slow"), reverse=True)
     examples = collections.defaultdict(list)
-    for f in sorted(fails, key=lambda f: (len(row_of[(f["id"], f["case"])]["text64"]), f["id"], f["case"])):
+    for f in sorted(fails, key=lambda f: (row_of[(f["id"], f["case"])]["mut"], row_of[(f["id"], f["case"])]["budget"] < 2000,
+                                          len(row_of[(f["id"], f["case"])]["text64"]), f["id"], f["case"])):
         r = row_of[(f["id"], f["case"])]
         if f["what"] == "panic":
             key = "panic@" + r["at"]
@@ -338,9 +364,10 @@ def run(ctx):
                   "others": [x[1]["show"] for x in lst[1:6]]}
         for _ in lst:
             ctx.violation(key, what, replay)
-    if truncated and not fails:
-        raise Infra("parser harness exceeded its time budget without any finding (%d restarts, %d rows)"
-                    % (restarts, len(rows)))
+    ran = len({r["id"] for r in rows}) / float(len(inputs))
+    if truncated and not fails and ran < 0.5:
+        raise Infra("parser harness exceeded its time budget without any finding (%d restarts, %d rows, %.0f%% of "
+                    "the inputs)" % (restarts, len(rows), 100 * ran))
     nc_kinds = collections.Counter(p["what"] for p in ncs)
     for what, n in sorted(nc_kinds.items()):
         ex = next(row_of[(p["id"], p["case"])] for p in ncs if p["what"] == what)
@@ -352,7 +379,8 @@ def run(ctx):
     for r in inputs:
         if r["syn"]:
             s = r["size"]
-            sizes["0-1" if s <= 1 else "2-16" if s <= 16 else "17-100" if s <= 100 else "101-300" if s <= CAP else ">300"] += 1
+            sizes["0-1" if s <= 1 else "2-16" if s <= 16 else "17-100" if s <= 100 else ">300" if s > CAP
+                  else "101-300" if r["vol"] <= VOLCAP else "101-300 but >%d literals" % VOLCAP] += 1
     slow = sorted((r for r in rows if r["verdict"] in ("ok", "err")), key=lambda r: -r["ms"])[:3]
     cov = {
         "states": states, "transitions": transitions,
@@ -366,11 +394,14 @@ def run(ctx):
         "generated_inputs": len(inputs), "per_generator_run": per_job, "dropped_beyond_bound": dropped_big,
         "grammatical_by_dnfsize": dict(sizes),
         "verdicts": dict(verdicts), "mutated_cases": sum(1 for r in rows if r["mut"]),
-        "shards_truncated_by_time_budget": truncated, "process_restarts": restarts, "process_crashes": crashes, "shards_degraded_after_flood": degraded,
+        "shards_truncated_by_time_budget": truncated, "inputs_run_fraction": round(ran, 3), "process_restarts": restarts, "process_crashes": crashes, "shards_degraded_after_flood": degraded,
         "timeouts_confirmed_by_rerun": confirmed,
-        "skipped_beyond_bound": infos.get("skipped", 0), "inconclusive_reduced_budget": infos.get("inconclusive", 0),
+        "skipped_beyond_bound": infos.get("skipped", 0),
+        "beyond_bound_observations": [row_of[(p["id"], p["case"])]["show"][:100] for p in tres.prints
+                                      if p.get("cls") == "info" and p["what"] == "skipped"][:3], "inconclusive_reduced_budget": infos.get("inconclusive", 0),
         "nonconformance": dict(nc_kinds),
         "slowest_returned_ms": [[r["ms"], r["show"][:80]] for r in slow],
+        "answers_over_500ms_cpu": len(slow_obs), "slowest_cpu_ms_size_volume": slow_obs[:5],
         "samples": [{"text": r["show"][:120], "verdict": r["verdict"], "ms": r["ms"], "nconds": r["nconds"]}
                     for r in rnd.sample(rows, min(4, len(rows)))],
     }
@@ -378,8 +409,11 @@ def run(ctx):
         "token sequences exhaustively up to %d kinds (any order) / %d kinds (grammatical), values up to 2-4 symbols per "
         "sub-grammar, longer ones by seeded simulation; arbitrary byte strings only as 1-3 byte-level mutations of those"
         % ((4, 5) if quick else (5, 7)),
-        "promptness = 2 s wall clock on this machine, confirmed by a second run alone; DNFSize is an upper bound "
-        "(conjunct-level cleaning is ignored), bound %d" % CAP,
+        "moderate size = DNFSize <= %d conjuncts and DNFVolume <= %d literals in the largest intermediate form "
+        "(the final Clean costs ~ conjuncts^2 x literals per conjunct: 300 x 42 literals needs 2-4 s and is recorded "
+        "as an observation, not a violation)" % (CAP, VOLCAP),
+        "promptness = 2 s of CPU time of the parsing thread on this machine (hard stop 17 s wall clock), confirmed by up to two more runs alone; DNFSize is an upper bound "
+        "(conjunct-level cleaning is ignored)",
         "'equivalent' = structurally equal Conditions/Sorting/Limit/Grouping, time durations modulo the shift of the "
         "reference time",
         "regular-expression validity of data values is not modelled (wf unknown)"]
